@@ -260,7 +260,10 @@ def big_shape(shape):
 
 
 # exactly 1 mm is drawn often: it is the value strip_latcal() leaves behind for "pixels", and 0 is the constructor's "no lateral calibration"
-dx_strategy = st.one_of(st.sampled_from(DXS), U.nice_float(0.01, 20.0), st.just(1.0))
+# the lateral unit is the caller's: millimetre-sized pixels expressed in nanometres (dx = 2e6) or kilometre-sized ones in metres give frequency steps of
+# 1e-8 and below - every relation of C13 is homogeneous in the lateral unit
+DX_UNITS = [2.0e6, 3.3e7, 1.0e9, 4.0e-7, 2.5e-9]
+dx_strategy = st.one_of(st.sampled_from(DXS), U.nice_float(0.01, 20.0), st.just(1.0), st.sampled_from(DX_UNITS))
 
 
 # ---- how an Interferogram comes to hold its sample spacing (constructor arguments, metadata, calibration methods) -----------------
